@@ -543,6 +543,31 @@ func TestC07(t *testing.T) {
 				}
 			})
 		}
+		// (c) bounds on the hostile stream of C01 (structure mutations, tags, aliases, token soup)
+		r.Check(t, "bounds-hostile-stream", hx.N(2500, 60000), func(rt *rapid.T) {
+			g := &wf.G{T: rt, Rare: rapid.Bool().Draw(rt, "rare")}
+			w := g.Workflow()
+			hostileMutate(rt, w.Root, rapid.IntRange(1, 5).Draw(rt, "nmut"))
+			src := ye.Emit(w.Root, g.Layout())
+			if len(src) > 64<<10 {
+				return
+			}
+			ds, err, pan, _ := lintSafe([]byte(src))
+			r.Eval()
+			if pan != nil || err != nil {
+				return // C01's business
+			}
+			if len(ds) > 0 {
+				r.NT(src)
+			}
+			r.Class("bounds/hostile-stream")
+			if k, m := boundsViolation(src, ds); k != "" {
+				if strings.Contains(src, `\n`) || strings.Contains(src, `\r`) || strings.Contains(src, `\x`) || strings.Contains(src, `\u`) {
+					k = "C07/line-past-eof-escaped-newlines"
+				}
+				r.Fail(rt, k, m, "C07/exact", &c07Exact{YAML: src, Line: 1, Col: 1, MsgSub: "", What: "bounds"})
+			}
+		})
 		// (c) bounds with escaped line breaks in double-quoted scalars
 		r.Check(t, "bounds-escaped-newlines", hx.N(600, 10000), func(rt *rapid.T) {
 			g := &wf.G{T: rt}
